@@ -306,6 +306,12 @@ theorem recv_path_reports (p : Bool) : recvFinal ⟨true, p⟩ .redirect = .typo
   refine ⟨rfl, rfl, fun m => rfl⟩
 
 open GunYu.ClusterSender in
+/-- once the pipelined receiver has seen a failed batch nothing more is sent (in particular no
+    resume position covering the commands of the failed batch) -/
+theorem recv_failed_sends_nothing (m : SMode) (outs : List (Option SErr)) :
+    (sendFuncR m true outs).1 = 0 ∧ (sendFuncR m false outs) = sendFunc m outs 0 := ⟨rfl, rfl⟩
+
+open GunYu.ClusterSender in
 /-- in every mode a failing batch is sent at most three times before the error
     is reported (each re-send is a repeated suffix, a new segment of C19's log) -/
 theorem sender_sends_at_most_three (m : SMode) (outs : List (Option SErr)) :
